@@ -176,3 +176,8 @@ package internal
 //@   call handleWatchEvents#0: assert arg_key == key && arg_ctx == ctx
 //@   call setupWatch#0: assert arg_cli == cli && arg_key == key && arg_rev == rev
 //@   loop 0: invariant true
+
+// the process-wide registry handle: reading it changes nothing
+//@ func GetRegistry
+//@   property C13
+//@   modifies nothing
